@@ -23,6 +23,7 @@ import (
 	"github.com/tikv/client-go/v2/tikvrpc"
 	"github.com/tikv/client-go/v2/txnkv/transaction"
 	"github.com/tikv/client-go/v2/util"
+	"github.com/tikv/client-go/v2/util/async"
 	"github.com/tikv/client-go/v2/verifsim/refkv"
 	"github.com/tikv/client-go/v2/verifsim/simkit"
 )
@@ -30,12 +31,17 @@ import (
 var fpOnce sync.Once
 
 // setThresholds sets the process-global knobs of a run. Must be called outside the bubble.
-func setThresholds(th Thresholds, ttlMs int) {
+func setThresholds(th Thresholds, ttlMs, flushDelayMs int) {
 	fpOnce.Do(func() { util.EnableFailpoints() })
 	_ = failpoint.Enable("tikvclient/pipelinedMemDBMinFlushKeys", fmt.Sprintf("return(%d)", th.MinFlushKeys))
 	_ = failpoint.Enable("tikvclient/pipelinedMemDBMinFlushSize", fmt.Sprintf("return(%d)", th.MinFlushSize))
 	_ = failpoint.Enable("tikvclient/pipelinedMemDBForceFlushSizeThreshold", fmt.Sprintf("return(%d)", th.ForceFlushSize))
 	_ = failpoint.Enable("tikvclient/injectLiveness", `return("reachable")`)
+	_ = failpoint.Disable("tikvclient/beforePipelinedFlush")
+	if flushDelayMs > 0 {
+		// the library's flush goroutine sleeps (fake time) before it calls the flush function
+		_ = failpoint.Enable("tikvclient/beforePipelinedFlush", fmt.Sprintf("sleep(%d)", flushDelayMs))
+	}
 	if ttlMs > 0 {
 		atomic.StoreUint64(&transaction.ManagedLockTTL, uint64(ttlMs))
 		transaction.VerifSetDefaultLockTTL(3000)
@@ -46,6 +52,7 @@ func clearThresholds() {
 	_ = failpoint.Disable("tikvclient/pipelinedMemDBMinFlushKeys")
 	_ = failpoint.Disable("tikvclient/pipelinedMemDBMinFlushSize")
 	_ = failpoint.Disable("tikvclient/pipelinedMemDBForceFlushSizeThreshold")
+	_ = failpoint.Disable("tikvclient/beforePipelinedFlush")
 	atomic.StoreUint64(&transaction.ManagedLockTTL, 20000)
 }
 
@@ -59,6 +66,29 @@ type world struct {
 	mvcc   mocktikv.MVCCStore
 	srv    *refkv.Server
 	stores []*tikv.KVStore
+}
+
+// conn is the transport endpoint of one client. BroadcastTxnStatus (a hint for a cache of TiKV that the
+// reference store does not have; it carries no protocol obligation) is answered in place and kept out of the
+// simulated network: how many of them a client sends depends on which stores its region cache happens to know
+// at that instant, which is decided by the Go scheduler among goroutines that run at the same fake instant, and
+// would shift the ordinals by which planned faults are addressed.
+type conn struct{ *simkit.Conn }
+
+func (c conn) SendRequest(ctx context.Context, addr string, req *tikvrpc.Request, timeout time.Duration) (*tikvrpc.Response, error) {
+	if req.Type == tikvrpc.CmdBroadcastTxnStatus {
+		if c.Net.IsCut(c.ID) {
+			return nil, simkit.ErrSimCut
+		}
+		return &tikvrpc.Response{Resp: &kvrpcpb.BroadcastTxnStatusResponse{}}, nil
+	}
+	return c.Conn.SendRequest(ctx, addr, req, timeout)
+}
+
+func (c conn) SendRequestAsync(ctx context.Context, addr string, req *tikvrpc.Request, cb async.Callback[*tikvrpc.Response]) {
+	go func() {
+		cb.Schedule(c.SendRequest(ctx, addr, req, 0))
+	}()
 }
 
 func newWorld(s *simkit.Sim, sc *TxnScenario) (*world, error) {
@@ -89,7 +119,7 @@ func newWorld(s *simkit.Sim, sc *TxnScenario) (*world, error) {
 	w.Net.FaultFilter = func(r *simkit.RPCRecord) bool { return r.Client == 0 }
 	for i := 0; i < 2; i++ {
 		pdc := simkit.NewPD(s, w.Net, i, w.TSO, mocktikv.NewPDClient(cluster))
-		st, err := tikv.NewTestTiKVStore(w.Net.NewConn(i), pdc, nil, nil, 0)
+		st, err := tikv.NewTestTiKVStore(conn{w.Net.NewConn(i)}, pdc, nil, nil, 0)
 		if err != nil {
 			return nil, err
 		}
@@ -151,19 +181,19 @@ type txnRun struct {
 	startTS uint64
 	begun   bool
 	// model of the transaction's own writes
-	own              map[string]*string
-	endKind          string
-	endErr           string
-	commitTS         uint64
-	flushErr         string // first error reported by Flush / FlushWait during the program
-	bg               atomic.Int64
-	bgSpawned        atomic.Int64
-	viol             []simkit.Violation
-	log              []string
-	stats            map[string]int
-	mid              *snapRead
-	final            *snapRead
-	readsDuringFlush int
+	own       map[string]*string
+	endKind   string
+	endErr    string
+	commitTS  uint64
+	flushErr  string // first error reported by Flush / FlushWait during the program
+	bg        atomic.Int64
+	bgSpawned atomic.Int64
+	viol      []simkit.Violation
+	log       []string
+	stats     map[string]int
+	mid       *snapRead
+	final     *snapRead
+	readSpans [][2]time.Duration // [start, end] of every read operation of the program
 }
 
 func (t *txnRun) logf(format string, args ...any) {
@@ -237,13 +267,6 @@ func (t *txnRun) runWriter() {
 	})
 	t.logf("begin pipelined txn start_ts=%d", t.startTS)
 	mb := txn.GetMemBuffer()
-	onFlushing := func() bool {
-		type of interface{ OnFlushing() bool }
-		if p, ok := mb.(of); ok {
-			return p.OnFlushing()
-		}
-		return false
-	}
 	for i, op := range sc.Ops {
 		if t.flushErr != "" || t.s.Aborted != "" {
 			break
@@ -269,19 +292,17 @@ func (t *txnRun) runWriter() {
 			}
 		case "get":
 			k := op.Keys[0]
-			during := onFlushing()
+			t0 := t.s.Now()
 			v, err := txn.Get(ctx, []byte(k))
+			t.readSpans = append(t.readSpans, [2]time.Duration{t0, t.s.Now()})
 			var got *string
 			if err == nil {
 				got = sp(string(v.Value))
 			}
-			t.logf("op%d get %s -> %s err=%v (flush in flight: %v)", i, k, fmtVal(got), err, during)
+			t.logf("op%d get %s -> %s err=%v", i, k, fmtVal(got), err)
 			if err != nil && !tikverr.IsErrNotFound(err) {
 				t.stats["txn.read-error"]++
 				continue
-			}
-			if during {
-				t.readsDuringFlush++
 			}
 			t.compareOwnRead(i, "Get", k, got)
 		case "bget":
@@ -289,8 +310,9 @@ func (t *txnRun) runWriter() {
 			for _, k := range op.Keys {
 				ks = append(ks, []byte(k))
 			}
-			during := onFlushing()
+			t0 := t.s.Now()
 			m, err := txn.BatchGet(ctx, ks)
+			t.readSpans = append(t.readSpans, [2]time.Duration{t0, t.s.Now()})
 			if err != nil {
 				t.logf("op%d bget %v err=%v", i, op.Keys, err)
 				t.stats["txn.read-error"]++
@@ -304,10 +326,7 @@ func (t *txnRun) runWriter() {
 					fmt.Fprintf(&sb, "%s=<none> ", k)
 				}
 			}
-			t.logf("op%d bget %v -> %s(flush in flight: %v)", i, op.Keys, sb.String(), during)
-			if during {
-				t.readsDuringFlush++
-			}
+			t.logf("op%d bget %v -> %s", i, op.Keys, sb.String())
 			for _, k := range op.Keys {
 				var got *string
 				if v, ok := m[k]; ok {
@@ -320,6 +339,9 @@ func (t *txnRun) runWriter() {
 			t.logf("op%d %s -> flushed=%v err=%v", i, op.K, flushed, err)
 			if flushed {
 				t.stats["txn.flush-triggered"]++
+				// Let the library's flush goroutine run until it parks (in its start delay or in its first RPC) before
+				// the program goes on: otherwise the Go scheduler, not the simulator, decides which of the two runs first.
+				time.Sleep(time.Microsecond)
 			}
 			if err != nil {
 				t.flushErr = errClass(err)
@@ -331,7 +353,8 @@ func (t *txnRun) runWriter() {
 				t.flushErr = errClass(err)
 			}
 		case "sleep":
-			time.Sleep(time.Duration(op.SleepMs) * time.Millisecond)
+			// (odd microseconds: the program never wakes at the very instant an RPC answer arrives)
+			time.Sleep(time.Duration(op.SleepMs)*time.Millisecond + time.Duration(3+7*(i%50))*time.Microsecond)
 		}
 	}
 	if t.flushErr != "" {
@@ -518,6 +541,9 @@ func execTxn(cfg simkit.RunConfig, sc *TxnScenario, res *simkit.RunResult, dump 
 		}
 		// Commit / Rollback returned. Let the client's background work (resolveFlushedLocks runs
 		// asynchronously) end, or 60 simulated seconds pass.
+		// (the odd offset keeps the polls off the instants at which the library's own timers fire: two
+		// goroutines woken at the same fake instant would run in an order the simulator does not control)
+		s.Sleep(123 * time.Microsecond)
 		for i := 0; i < 60; i++ {
 			s.Sleep(time.Second)
 			if t.bg.Load() == 0 && w.Net.Quiet(time.Second) {
@@ -553,9 +579,9 @@ func execTxn(cfg simkit.RunConfig, sc *TxnScenario, res *simkit.RunResult, dump 
 	t.w.close()
 	simkit.Settle()
 	// The keep-alive goroutine of a pipelined transaction is not tied to the store's lifetime: when its heart-beat
-	// was on the wire at shutdown it retries on a back-off budget of 20 s before it looks at its stop channel.
-	// The fake clock stops when Execute returns, so let that budget run out here.
-	time.Sleep(45 * time.Second)
+	// (or its TSO request) was on the wire at shutdown it retries on a back-off budget of 20 s each before it
+	// looks at its stop channel. The fake clock stops when Execute returns, so let those budgets run out here.
+	time.Sleep(120 * time.Second)
 	synctest.Wait()
 
 	res.Aborted = s.Aborted
@@ -595,7 +621,14 @@ func execTxn(cfg simkit.RunConfig, sc *TxnScenario, res *simkit.RunResult, dump 
 	if nFlushKeys == 1 {
 		t.stats["probe.exactly-one-flushed-key"]++
 	}
-	t.stats["reads.during-flush"] += t.readsDuringFlush
+	for _, sp := range t.readSpans {
+		for _, r := range trace {
+			if r.Type == tikvrpc.CmdFlush && r.Client == 0 && r.SubmitAt <= sp[1] && (r.DoneAt == 0 || r.DoneAt >= sp[0]) {
+				t.stats["reads.during-flush"]++
+				break
+			}
+		}
+	}
 	t.stats["faults.fired"] += len(fired)
 
 	if s.Aborted == "" && t.begun {
